@@ -33,6 +33,11 @@ def make_model(case):
         cols[f"dv0_{k}"] = ((np.arange(n) + 0.25 * k) * kf, case["kunit"])
     for i in range(1, pt):
         cols[f"v{i}"] = ((0.01 * (np.arange(n) + 1) * (-1) ** i) * kf, case["kunit"] + f" / d{i if i > 1 else ''}".replace("d2", "d2"))
+    if case.get("colorder") == "rot":
+        # columns inserted in another order than the canonical P, e, omega, M0, s, K, ... (prior.sample() does this too)
+        keys = list(cols)
+        keys = keys[1:5] + keys[:1] + keys[5:][::-1]
+        cols = {k: cols[k] for k in keys}
     return T.TModel(cols, TREF if case["t_ref"] else None, pt, no)
 
 
@@ -167,6 +172,14 @@ def check_table(case, part):
     d = T.diff(T.from_impl(back), m)
     if d:
         part.violation(case, "pack(units=own, nonlinear_only=False) -> unpack: " + d)
+        return
+    # explicit column order
+    rev = list(m.cols)[::-1]
+    packed, units = s.pack(units=dict(own), names=rev)
+    back = tj.JokerSamples.unpack(packed, units, t_ref=tr, poly_trend=m.poly_trend, n_offsets=m.n_offsets)
+    d = T.diff(T.from_impl(back), m.select(rev))
+    if d:
+        part.violation(case, "pack(names=reversed) -> unpack: " + d)
         return
     packed, units = s.pack()
     if list(units.keys()) != ["P", "e", "omega", "M0", "s"]:
@@ -393,7 +406,8 @@ def build_cases(quick, seed):
                         for punit in (("d",) if n >= 3 else ("d", "yr")):
                             for (tr, pt, no) in (metas if n <= 2 else metas[:1] + metas[4:5]):
                                 cases.append(dict(kind="table", K=list(Ks), om0=om0, aunit=aunit, kunit=kunit, punit=punit,
-                                                  t_ref=tr, poly_trend=pt, n_offsets=no, jit=jit))
+                                                  t_ref=tr, poly_trend=pt, n_offsets=no, jit=jit,
+                                                  colorder="rot" if (om0 + len(Ks) + (aunit == "deg")) % 2 else "canon"))
     chains = []
     depth = 3 if quick else 4
     base = [dict(K=[-3.0, 2.0, -0.5], om0=1, aunit="deg", kunit="m / s", punit="yr", t_ref=True, poly_trend=2, n_offsets=1, jit=jit),
